@@ -18,6 +18,10 @@ CircuitsSmall ==
          [kind |-> "Multihot", len |-> 2, maxw |-> 2, chunk |-> 3] }
   \cup { [kind |-> "L1BoundSum", max |-> 3, len |-> 2, chunk |-> 2], [kind |-> "L1BoundSum", max |-> 3, len |-> 2, chunk |-> 4],
          [kind |-> "L1BoundSum", max |-> 1, len |-> 2, chunk |-> 2], [kind |-> "L1BoundSum", max |-> 2, len |-> 1, chunk |-> 3] }
+  \* every relation between chunk length and input: chunk 1, chunk larger than the whole input, chunk smaller than one digit group
+  \cup { [kind |-> "Histogram", len |-> 2, chunk |-> 5], [kind |-> "Multihot", len |-> 2, maxw |-> 1, chunk |-> 1],
+         [kind |-> "Multihot", len |-> 2, maxw |-> 1, chunk |-> 7], [kind |-> "L1BoundSum", max |-> 3, len |-> 1, chunk |-> 1],
+         [kind |-> "L1BoundSum", max |-> 1, len |-> 3, chunk |-> 5], [kind |-> "SumVec", max |-> 3, len |-> 1, chunk |-> 1] }
 \* circuits for the larger fields (P >= 193): longer inputs, more gadget calls
 CircuitsMedium ==
   { [kind |-> "Count"], [kind |-> "HigherDegree"], [kind |-> "Sum", max |-> 100], [kind |-> "Sum", max |-> 127],
